@@ -2,10 +2,11 @@ import VermouthModel.C10
 import Generated.C10Radii
 open Proto C10
 
-def atomOf (t : Tok) : Option Atom := do
+def atomOf (t : Tok) : Option InAtom := do
   match ← t.list? with
-  | [m, ch, ri, rn, ic, nm, el, x, y, z] =>
-    pure { mol := ← m.nat?, chain := ← ch.optStr?, resid := ← ri.optInt?, resname := ← rn.optStr?,
+  | [sm, ss, ch, ri, rn, ic, nm, el, x, y, z] =>
+    pure { staleMol := (← sm.optInt?).map Int.toNat, staleSerial := (← ss.optInt?).map Int.toNat,
+           chain := ← ch.optStr?, resid := ← ri.optInt?, resname := ← rn.optStr?,
            icode := ← ic.optStr?, name := ← nm.optStr?, element := ← el.optStr?,
            x := ← x.int?, y := ← y.int?, z := ← z.int? }
   | _ => none
@@ -13,6 +14,22 @@ def atomOf (t : Tok) : Option Atom := do
 def edgeOf (t : Tok) : Option Edge := do
   match ← t.list? with
   | [a, b] => pure (← a.nat?, ← b.nat?)
+  | _ => none
+
+/-- an input edge `[u v]` or `[u v 1]` (1 = it already carries a 'distance' attribute) -/
+def inEdgeOf (t : Tok) : Option (Edge × Bool) := do
+  match ← t.list? with
+  | [a, b] => pure ((← a.nat?, ← b.nat?), false)
+  | [a, b, d] => pure ((← a.nat?, ← b.nat?), (← d.nat?) != 0)
+  | _ => none
+
+/-- an input molecule; second component: the same molecule with only the edges that carry a distance -/
+def molOf (t : Tok) : Option (InMol × InMol) := do
+  match ← t.list? with
+  | [atoms, edges] =>
+    let as ← (← atoms.list?).mapM atomOf
+    let es ← (← edges.list?).mapM inEdgeOf
+    pure ({ atoms := as, edges := es.map (·.1) }, { atoms := as, edges := (es.filter (·.2)).map (·.1) })
   | _ => none
 
 def blockOf (t : Tok) : Option (String × Block) := do
@@ -26,11 +43,11 @@ def labelOf (mols : List (List Nat)) (i : Nat) : Nat :=
   | some p => p.foldl min i
   | none => i
 
-def render (S : Sys) (R : Result) : String :=
+def render (S : Sys) (preD : List Edge) (R : Result) : String :=
   let n := S.atoms.length
   let es := (allPairs n).filterMap fun e =>
     if R.bonded S e.1 e.2 then
-      some (encList [encNat e.1, encNat e.2, if R.hasDistance e.1 e.2 then "2" else "1"])
+      some (encList [encNat e.1, encNat e.2, if R.hasDistance e.1 e.2 || has preD e.1 e.2 then "2" else "1"])
     else none
   let count := (R.mols.map List.length).sum
   "E " ++ encList es ++ " L " ++ encList ((List.range n).map fun i => encNat (labelOf R.mols i))
@@ -40,14 +57,11 @@ def render (S : Sys) (R : Result) : String :=
 def handle (_ : Unit) (toks : List Tok) : Unit × String :=
   let r : Option String :=
     match toks with
-    | [Tok.str "run", atoms, pre, ff, an, ad, p, q] => do
-        let atoms ← (← atoms.list?).mapM atomOf
-        let pre ← (← pre.list?).mapM edgeOf
+    | [Tok.str "run", mols, ff, an, ad, p, q] => do
+        let ms ← (← mols.list?).mapM molOf
         let ff ← (← ff.list?).mapM blockOf
-        let S : Sys := { atoms := atoms, pre := pre, ff := ff, radii := vdwRadii,
-                         allowName := (← an.nat?) != 0, allowDist := (← ad.nat?) != 0,
-                         p := ← p.nat?, q := ← q.nat? }
-        pure (render S (run S))
+        let S := sysOf (ms.map (·.1)) ff vdwRadii ((← an.nat?) != 0) ((← ad.nat?) != 0) (← p.nat?) (← q.nat?)
+        pure (render S (unionFrom 0 0 (ms.map (·.2))).2 (run S))
     | _ => none
   ((), r.getD "bad-op")
 
